@@ -302,7 +302,19 @@ static void lay_good(vf_rng *r, laydoc &d, int serial)
 	d.cnt_rej = "layout-text:good:rejected"; d.cnt_acc = "layout-text:good:accepted";
 	if (vf_chance(r, 1, 2)) { snprintf(buf, sizeof(buf), "name = lay%d;\n", serial); d.text += buf; }
 	if (vf_chance(r, 1, 4)) d.text += "# a comment line\n";
-	for (int i = 0; i < n; i++) {
+	int longpos = vf_chance(r, 1, 4) ? (int) vf_below(r, (uint32_t) n + 1) : -1;
+	for (int i = 0; i <= n; i++) {
+		if (i == longpos) {
+			/* top-level option with a value of 255..600 bytes: a reference counted text object, added to the group as item */
+			int len = vf_range(r, 255, 600);
+			snprintf(buf, sizeof(buf), "k%d_%d", serial, i);
+			d.items.push_back(buf);
+			d.text += buf; d.text += " = ";
+			for (int k = 0; k < len; k++) d.text += (k && k + 1 < len && !(k % 17)) ? ' ' : "abcdefghijklmnopqrstuvwxyz0123456789"[vf_below(r, 36)];
+			d.text += ";\n";
+			vf_count("layout:top-level-long-option", 1);
+		}
+		if (i == n) break;
 		const char *t = types[vf_below(r, 7)];
 		snprintf(buf, sizeof(buf), "%c%d_%d", t[0], serial, i);
 		d.items.push_back(buf);
